@@ -10,6 +10,7 @@ func init() {
 	verifRegister("verifC16Attrs", verifC16Attrs)
 	verifRegister("verifC16AttrSizes", verifC16AttrSizes)
 	verifRegister("verifC16Equality", verifC16Equality)
+	verifRegister("verifC16ExtensionEquality", verifC16ExtensionEquality)
 	verifRegister("verifC16Tokenizers", verifC16Tokenizers)
 	verifRegister("verifC16Extensions", verifC16Extensions)
 	verifRegister("verifC16RoundTrip", verifC16RoundTrip)
@@ -409,6 +410,51 @@ func verifC16ParseAny() {
 	verifAssert(err2 == nil, "accepted-text-re-marshals-to-parseable-text")
 	if err2 == nil {
 		verifAssertKnown(again.Equal(c), "re-parsed-candidate-equal", "C16-roundtrip-related-address-zero", true)
+	}
+	verifReach("done")
+}
+
+// (b') DeepEqual on candidates that differ only in their extension lists is
+// multiset equality of (key, value) pairs: extension names need not be unique
+// (RFC 5245 §15.1), order does not matter.
+func verifC16ExtensionEquality() {
+	n := 2 + verifChoice(1+verifTier())
+	mk := func() (Candidate, []CandidateExtension) {
+		c, err := NewCandidateHost(&CandidateHostConfig{Network: udp, Address: "10.0.0.1", Port: 53987, Component: 1, Priority: 500})
+		if err != nil {
+			panic("verif: constructor: " + err.Error())
+		}
+		b := verifBaseOf(c)
+		for i := 0; i < n; i++ {
+			b.extensions = append(b.extensions, CandidateExtension{Key: verifString(1), Value: verifString(1)})
+		}
+		return c, b.extensions
+	}
+	c1, x1 := mk()
+	c2, x2 := mk()
+	same := func(a, b CandidateExtension) bool {
+		return verifAnd(verifStrEq(a.Key, b.Key), verifStrEq(a.Value, b.Value))
+	}
+	count := func(x CandidateExtension, in []CandidateExtension) int {
+		k := 0
+		for i := range in {
+			k += verifIteInt(same(x, in[i]), 1, 0)
+		}
+		return k
+	}
+	multisetEq := true
+	for i := range x1 {
+		multisetEq = verifAnd(multisetEq, count(x1[i], x1) == count(x1[i], x2))
+	}
+	verifAssert(c1.DeepEqual(c1), "DeepEqual-reflexive(repeated-extension-names)")
+	d12, d21 := c1.DeepEqual(c2), c2.DeepEqual(c1)
+	verifAssert(d12 == d21, "DeepEqual-symmetric(repeated-extension-names)")
+	verifAssert(d12 == multisetEq, "DeepEqual=multiset-equality-of-extensions")
+	verifAssert(c1.Equal(c2), "Equal-ignores-extensions")
+	if d12 {
+		verifReach("deep-equal")
+	} else {
+		verifReach("not-deep-equal")
 	}
 	verifReach("done")
 }
